@@ -80,7 +80,8 @@ PROPS = {
         'uniformly weighted (70%) or uniformly unweighted histories', assumptions=COMMON_ASSUME,
     ),
     'C09': dict(
-        extra_modules=['GraphrsModel.Props.C09Model', 'GraphrsModel.Props.C12Weighted', 'GraphrsModel.Props.C09Rest'],
+        extra_modules=['GraphrsModel.Props.C09Model', 'GraphrsModel.Props.C12Weighted', 'GraphrsModel.Props.C09Rest', 'GraphrsModel.Props.FormulasC09'],
+        translators=['formulas'],
         gens=[('store', 'degrees', 3000, 40000, 12), ('store', 'big', 150, 3000, 0)],
         spec_fields=[r'cnt', r'deg', r'indeg', r'outdeg', r'wdeg', r'windeg', r'woutdeg', r'degall', r'indegall',
                      r'outdegall', r'wdegall', r'windegall', r'woutdegall', r'dens:q', r'dc:q', r'mat'],
@@ -168,14 +169,16 @@ CEN_RULE = ('random graphs of all 8 kinds, 1..size nodes (plus a few with 21-36 
 
 PROPS.update({
     'C05': dict(
-        extra_modules=['GraphrsModel.Props.C05Full'],
+        extra_modules=['GraphrsModel.Props.C05Full', 'GraphrsModel.Props.FormulasC05'],
+        translators=['formulas'],
         gens=[('cen', 'small', 1500, 25000, 8), ('cen', 'parallel', 20, 200, 36), ('cen', 'diamond', 12, 150, 0)],
         spec_fields=[r'bc0:q', r'bc1:q'], model_fields=[r'build', r'bc0:q', r'bc1:q'],
         nontrivial=cen_nontrivial, hist=cen_hist, rule=CEN_RULE,
         assumptions=COMMON_ASSUME + ['f64 rounding of the accumulation is not modelled: values are compared with relative tolerance 1e-9'],
     ),
     'C06': dict(
-        extra_modules=['GraphrsModel.Props.C06Model', 'GraphrsModel.Props.C03Rows'],
+        extra_modules=['GraphrsModel.Props.C06Model', 'GraphrsModel.Props.C03Rows', 'GraphrsModel.Props.FormulasC06'],
+        translators=['formulas'],
         gens=[('cen', 'small', 1500, 25000, 8), ('cen', 'parallel', 20, 200, 36)],
         spec_fields=[r'cc0:q', r'cc1:q'], model_fields=[r'build', r'cc0:q', r'cc1:q'],
         nontrivial=cen_nontrivial, hist=cen_hist, rule=CEN_RULE,
@@ -216,7 +219,8 @@ PROPS.update({
 
 PROPS.update({
     'C11': dict(
-        extra_modules=['GraphrsModel.Props.C11Model', 'GraphrsModel.Props.C11Weighted', 'GraphrsModel.Props.C11GenDeg'],
+        extra_modules=['GraphrsModel.Props.C11Model', 'GraphrsModel.Props.C11Weighted', 'GraphrsModel.Props.C11GenDeg', 'GraphrsModel.Props.FormulasC11'],
+        translators=['formulas'],
         gens=[('clu', 'small', 2500, 40000, 7), ('clu', 'small', 100, 2000, 16)],
         spec_fields=[r'tri', r'triS', r'gd', r'gdS', r'trans:q', r'clu:q', r'cluS:q', r'wclu:b', r'wcluS:b', r'avg1:b', r'avg0:b',
                      r'avgS:b', r'sq:q', r'sqS:q', r'ok\.unit'],
@@ -241,7 +245,8 @@ LOUV_RULE = ('random graphs of all 8 kinds with 2..size nodes and at least one e
 
 PROPS.update({
     'C12': dict(
-        extra_modules=['GraphrsModel.Props.C09Model', 'GraphrsModel.Props.C12Weighted'],
+        extra_modules=['GraphrsModel.Props.C09Model', 'GraphrsModel.Props.C12Weighted', 'GraphrsModel.Props.FormulasC12'],
+        translators=['formulas'],
         gens=[('mod', 'small', 3000, 50000, 7), ('mod', 'small', 150, 3000, 18)],
         spec_fields=[r'isp', r'mod:q'], model_fields=[r'build', r'isp', r'mod:q'], impl_checks=[('defaultres', '1')],
         nontrivial=lambda req, I: I.get('isp') == '1' and I.get('mod:q') not in ('nan', None),
@@ -252,7 +257,8 @@ PROPS.update({
         assumptions=COMMON_ASSUME,
     ),
     'C13': dict(
-        extra_modules=['GraphrsModel.Props.C13Model', 'GraphrsModel.Props.C13Termination'],
+        extra_modules=['GraphrsModel.Props.C13Model', 'GraphrsModel.Props.C13Termination', 'GraphrsModel.Props.C13TerminationFull', 'GraphrsModel.Props.FormulasC13'],
+        translators=['formulas'],
         gens=[('louv', 'random', 1500, 25000, 9), ('louv', 'ties', 500, 8000, 10), ('louv', 'strand', 1500, 25000, 6), ('louv', 'random', 100, 2000, 20)],
         spec_fields=[r'ok\.levels', r'ok\.nested', r'ok\.monotone', r'ok\.last'], model_fields=[r'build', r'parts'],
         nontrivial=lambda req, I: ',' in I.get('parts', ''),
@@ -263,7 +269,8 @@ PROPS.update({
             'termination is observed through a watchdog: 8 s per call'],
     ),
     'C17': dict(
-        extra_modules=['GraphrsModel.Props.C17Model'],
+        extra_modules=['GraphrsModel.Props.C17Model', 'GraphrsModel.Props.FormulasC13'],
+        translators=['formulas'],
         thorough_scale=2,
         gens=[('louv', 'ties', 1200, 20000, 12), ('louv', 'random', 600, 10000, 9), ('louv', 'nearties', 300, 5000, 0), ('louv', 'inexact', 600, 10000, 10)],
         spec_fields=[], model_fields=[r'build'], impl_checks=[('same', '1')],
